@@ -41,7 +41,7 @@ Proof. intros Hc He. unfold run at 1. rewrite fold_left_app. fold (run ns c0 ops
 
 (* what an accepted complete / submit / remove / skip leaves the act in *)
 Definition closing (a : action) : option TaskState :=
-  match a with ANext => Some SCompleted | ASubmit => Some SSubmitted | ARemove => Some SRemoved | ASkip => Some SSkipped | _ => None end.
+  match a with ANext => Some SCompleted | ASubmit => Some SSubmitted | ARemove => Some SRemoved | ASkip => Some SSkipped | AAbort => Some SAborted | _ => None end.
 Lemma perform_closes e i a cv s : J e -> i < ntasks e -> is_completed (st e i) = false -> closing a = Some s ->
   st (perform e i a cv) i = s /\ is_completed s = true /\ s <> SError.
 Proof.
@@ -66,6 +66,29 @@ Proof.
     assert (S1 : st (close_open 26 e (siblings e i) SSkipped) i = st e i).
     { apply close_open_st; auto; try discriminate. intros Hin. apply siblings_ne in Hin. now apply Hin. }
     apply Hnext; [apply G1 | destruct G1; lia | now rewrite S1].
+  - (* abort: the act is written aborted, emitted, then the rest of the process is closed around it *)
+    pose proof HJ as ((_ & _ & HW & _) & _).
+    assert (Hsib : forall j, In j (siblings e i) -> j < ntasks e) by (intros j Hj; eapply siblings_lt; eauto).
+    set (e1 := close_open 26 e (siblings e i) SSkipped).
+    assert (G1 : G e e1) by (apply close_open_J; auto).
+    assert (S1 : st e1 i = st e i).
+    { apply close_open_st; auto; try discriminate. intros Hin. apply siblings_ne in Hin. now apply Hin. }
+    assert (Hi1 : i < ntasks e1) by (destruct G1; lia).
+    assert (Gs : G e1 (set_state 27 e1 i SAborted)) by (apply G_set_state; [apply G1 | rewrite S1, legal_to_terminal; auto]).
+    assert (Sm : st (set_state 27 e1 i SAborted) i = SAborted) by (destruct (EngineBasics.st_set_state_same 27 e1 i SAborted) as [E | [E _]]; [exact E | unfold ntasks in Hi1; lia]).
+    set (ed := set_data (set_state 27 e1 i SAborted) i cv).
+    assert (Gd : G e1 ed) by (eapply G_trans; [exact Gs|]; apply G_xext; [apply Gs | apply xext_set_data]).
+    assert (Sd : st ed i = SAborted) by (unfold ed; rewrite (ext_st _ _ i (ext_set_data (set_state 27 e1 i SAborted) i cv)); exact Sm).
+    set (e2 := emit (fuel_of e1) ed i).
+    assert (G2 : G e1 e2) by (eapply G_trans; [exact Gd|]; apply mainE; [apply Gd | destruct G1, Gd; lia]).
+    rewrite st_ret_ok.
+    set (e3 := abort_sweep e2 (ancestors (S (length (tasks e2))) e2 (parent e2 i))).
+    assert (G3 : G e2 e3) by (apply abort_sweep_J, G2).
+    assert (G4 : G e3 (abort_up (S (length (tasks e3))) e3 (parent e3 i))).
+    { apply abort_up_J; [apply G3|]. intros q Hq.
+      destruct G3 as [((_ & _ & HW3 & _) & _) L3]. apply parent_lt in Hq; auto; destruct G1, G2; lia. }
+    rewrite <- Sd. apply stays; [apply Gd | apply G4 | | now rewrite Sd | now rewrite Sd].
+    eapply pre_trans; [apply pre_emit|]. fold e2. eapply pre_trans; [apply pre_abort_sweep | apply pre_abort_up].
 Qed.
 
 (* after an accepted complete / submit / remove / skip of an act, whatever happens next -- any operations, any schedule,
@@ -119,4 +142,33 @@ Proof.
   cbn [logok forallb] in Hl, HP. apply andb_true_iff in Hl as [_ Hl]. apply andb_true_iff in HP as [_ HP].
   rewrite cur_app in E2. cbn [cur cstep] in E2. rewrite E1, E2.
   now apply history_forward.
+Qed.
+
+(* the return of a sub-process (runtime.rs return_to_act): the action on the calling act for a child that ended in state s *)
+Definition return_action (s : TaskState) (code : option nat) : action :=
+  match s with SAborted => AAbort | SSkipped => ASkip | SError => AError code | _ => ANext end.
+Definition return_end (s : TaskState) : TaskState :=
+  match s with SAborted => SAborted | SSkipped => SSkipped | SError => SError | _ => SCompleted end.
+Lemma return_action_closing s code : s <> SError -> closing (return_action s code) = Some (return_end s).
+Proof. destruct s; simpl; intros H; try reflexivity. congruence. Qed.
+Lemma admission_keeps e i a opts cv a' : admission e i a opts = Some (cv, a') ->
+  match a with AError _ | ABack _ | APush _ => True | _ => a' = a end.
+Proof.
+  unfold admission. destruct (is_completed (pstate e)); [discriminate|]. destruct (Nat.leb _ _); [discriminate|].
+  destruct (_ && negb (nkind_beq (kind e i) KStep)); [discriminate|]. destruct (negb _ && negb (nkind_beq (kind e i) KAct)); [discriminate|].
+  destruct (n_outs (tnode e i) && negb _); [discriminate|]. cbv zeta.
+  destruct (n_outs (tnode e i)); destruct a; cbn [is_cancel negb andb]; try exact (fun _ => I);
+    try (destruct (is_completed (st e i)); cbn [andb negb]; [discriminate | intros H; inversion H; reflexivity]);
+    try (intros H; inversion H; reflexivity).
+Qed.
+(* when the child ended without error and its return is admitted, the calling act takes the state the ending maps to and
+   keeps it whatever happens next; every later action on it but cancel -- a second return included -- is rejected *)
+Theorem return_closes_for_good e i s code opts cv a' ops b opts' :
+  J e -> s <> SError -> admission e i (return_action s code) opts = Some (cv, a') -> is_cancel b = false ->
+  let e1 := fold_left apply_op ops (do_action e i (return_action s code) opts) in
+  st e1 i = return_end s /\ do_action e1 i b opts' = ret_err e1.
+Proof.
+  intros HJ Hs Ha Hb. apply (closing_action_is_the_last e i (return_action s code) opts cv a' (return_end s) ops b opts' HJ Ha); auto.
+  pose proof (admission_keeps _ _ _ _ _ _ Ha) as K. rewrite <- (return_action_closing s code Hs).
+  destruct s; simpl in K |- *; try (rewrite K; reflexivity). congruence.
 Qed.
